@@ -580,3 +580,49 @@ package graphql
 //@ func ClientError.SanitizedError
 //@   assigns nothing
 //@   ensures result == e.message
+
+// ---- C17 / C16 (the read loop): whatever ends the loop, every subscription of the connection is closed exactly once on the
+// way out; a message that is refused is answered under its own id with the sanitised text of its own error.
+//@ func conn.ServeJSONSocket
+//@   requires c != nil && c.subscriptions != nil
+//@   keeps conn
+//@   loop 1 invariant c.subscriptions != nil
+//@   ghost nclose int
+//@   ghost san string
+//@   ghost lastErr error
+//@   entry ghost nclose = 0
+//@   call conn.closeSubscriptions assert arg0 == c
+//@   call conn.closeSubscriptions ghost nclose = nclose + 1
+//@   call conn.handle assert arg0 == c
+//@   call conn.handle ghost lastErr = ret0
+//@   ghost lastID string
+//@   call conn.handle ghost lastID = arg1.ID
+//@   call SanitizeError assert arg0 == lastErr
+//@   call SanitizeError ghost san = ret0
+//@   call conn.writeOrClose assert arg1.Type == "error" && arg1.ID == lastID && arg1.Message == san
+//@   ensures nclose == 1
+
+// ---- C16 / C17 / C02 (one mutation): the request is answered exactly once under its own id - an "error" envelope with the
+// sanitised text of its own error, or a "result" envelope with the whole value - its entry in the id table is closed exactly
+// once, the other subscriptions are re-run only after a success, and the run always ends with an error so that the rerunner
+// does not run it again.
+//@ func conn.handleMutate$1
+//@   keeps cell(bool), cell(string), ComputationInput
+//@   ghost nwrites int
+//@   ghost nclose int
+//@   ghost nrerun int
+//@   ghost san string
+//@   entry ghost nwrites = 0
+//@   entry ghost nclose = 0
+//@   entry ghost nrerun = 0
+//@   call SanitizeError assert arg0 == err
+//@   call SanitizeError ghost san = ret0
+//@   call conn.writeOrClose#1 assert arg1.ID == id && arg1.Type == "error" && arg1.Message == san
+//@   call conn.writeOrClose#2 assert arg1.ID == id && arg1.Type == "result"
+//@   call conn.writeOrClose ghost nwrites = nwrites + 1
+//@   call Diff assert arg0 == nil && arg1 == current
+//@   call conn.closeSubscription assert arg1 == id
+//@   call conn.closeSubscription ghost nclose = nclose + 1
+//@   call conn.rerunSubscriptionsImmediately assert nwrites == 1
+//@   call conn.rerunSubscriptionsImmediately ghost nrerun = nrerun + 1
+//@   ensures nwrites == 1 && nclose == 1 && result1 != nil && nrerun <= 1
